@@ -45,6 +45,39 @@ impl Out {
     }
 }
 
+thread_local! {
+    /// full text of the error of the last `render` on this thread that failed
+    static LAST_ERROR: std::cell::RefCell<Option<String>> = const { std::cell::RefCell::new(None) };
+}
+
+/// full message of the last failed `render` on this thread
+pub fn last_error_text() -> Option<String> {
+    LAST_ERROR.with(|l| l.borrow().clone())
+}
+
+/// An order-insensitive fingerprint of a whole error message: first line verbatim, number of
+/// lines, and the sorted characters of everything after the first line (hashed). Messages may
+/// print objects (hash-map order, the one aspect the statements leave open), so any permutation
+/// of the same text must compare equal; a missing or extra context line must not.
+pub fn error_fingerprint(full: &str) -> String {
+    let mut lines = full.lines();
+    let first = lines.next().unwrap_or("");
+    let rest: Vec<&str> = lines.collect();
+    let mut chars: Vec<char> = rest.iter().flat_map(|l| l.chars()).collect();
+    chars.sort_unstable();
+    let sorted: String = chars.into_iter().collect();
+    format!("{first} [+{} context lines, fingerprint {:016x}]", rest.len(), crate::rng::hash_str(&sorted))
+}
+
+/// like `render(..).summary_with_error()`, but a failure is identified by its whole message
+/// (through `error_fingerprint`), not just the first line
+pub fn render_full(t: &Template, data: &Object) -> String {
+    match render(t, data) {
+        Out::Err(_) => format!("err:{}", error_fingerprint(&last_error_text().unwrap_or_default())),
+        other => other.summary(),
+    }
+}
+
 pub fn first_line(e: &liquid::Error) -> String {
     e.to_string().lines().next().unwrap_or("").to_string()
 }
@@ -59,7 +92,10 @@ pub fn render(t: &Template, data: &Object) -> Out {
     });
     match r {
         Err(p) => Out::Panic(p),
-        Ok((Err(e), _)) => Out::Err(first_line(&e)),
+        Ok((Err(e), _)) => {
+            LAST_ERROR.with(|l| *l.borrow_mut() = Some(e.to_string()));
+            Out::Err(first_line(&e))
+        }
         Ok((Ok(()), buf)) => match String::from_utf8(buf) {
             Ok(s) => {
                 if !cfg!(debug_assertions) {
